@@ -142,6 +142,7 @@ HYPOTHESIS_MARKERS = {
     "DsmFact": "double_scalarmult_vartime = [a]A+[b]B taken as an interface hypothesis (DsmFact)",
     "LadderComm": "commutation of the Montgomery ladder (DH symmetry) taken as a hypothesis (LadderComm)",
     "Sc32ReduceSpec": "ref10 sc_reduce = value mod L for the 32-bit backend taken as a hypothesis (Sc32ReduceSpec)",
+    "DigestLeak": "length-only leakage of the digest type parameter taken as an interface hypothesis by the HMAC leakage theorems of C19 (DigestLeak): no instance for the real SHA-2/SHA-3 engines is proved",
     "Sc32MuladdSpec": "ref10 sc_muladd = (ab+c) mod L for the 32-bit backend taken as a hypothesis (Sc32MuladdSpec)",
 }
 
